@@ -37,8 +37,11 @@ THEOREMS = [
     "PorepyVerif.C06.assemble_is_slice",
     "PorepyVerif.C06.slice_rows_increasing",
     "PorepyVerif.C06.columns_sorted_subset",
+    "PorepyVerif.C06.columns_all",
+    "PorepyVerif.C06.driver_split_sound",
     "PorepyVerif.C06.indices_reported",
     "PorepyVerif.C06.residual_only_eq",
+    "PorepyVerif.C06.residual_only_is_slice",
     "PorepyVerif.C06.restriction_order_irrelevant",
     "PorepyVerif.C06.request_permutation_irrelevant",
     "PorepyVerif.C06.grid_order_irrelevant",
@@ -47,7 +50,6 @@ LEAN_MODULES = ["PorepyVerif.C06.Props"]
 AUDIT = "PorepyVerif/C06/Audit.lean"
 DRIVER = "PorepyVerif/C06/Driver.lean"
 N = {"quick": 120, "thorough": 2500}
-DISABLED = True
 RULE = ("md-grids with 2-4 subdomains (dim 0-3, 1-3 cells) and 0-3 mortar grids instantiated in random order; 2-4 variables "
         "(cells/faces/nodes multiplicities 0-2, names from a pool of 3 so that a name recurs on other grids and on interfaces); "
         "2-5 equations (cells/faces/nodes multiplicities 0-2, zero-row blocks and an equation without grids are frequent, "
@@ -470,6 +472,11 @@ def oracle(case):
         p += sizes[i]
     ndofs = p
     eqs = []  # [name, [(grid, nrows) in md order]] in the order of setting
+    kinds = {}
+    for a in _atoms(case["vars"]):
+        kinds.setdefault(a["name"], set()).add(a["on"])
+    name_on_both = any(len(k) == 2 for k in kinds.values())
+    deferred = None  # a failure that is a recorded finding: reported only if nothing else fails
     for j, rec in enumerate(tr["recs"]):
         op = rec["op"]
         if op["op"] == "set_eq":
@@ -501,11 +508,24 @@ def oracle(case):
                     want_err = "ValueError"
                     break
                 sel[key[1]] = None if gs is None else set(gs)
+        foreign_var = False
         if want_err is None and op["jac"] and op["vars"]:
             for v in op["vars"]:
-                if v[0] == "x" or (v[0] == "v" and v[1] >= len(tr["atoms"])) or (v[0] == "m" and any(i >= len(tr["atoms"]) for i in v[1])):
+                if v[0] == "x":
+                    want_err = "ValueError"   # raised by _parse_variable_type before any dof is looked up
+                    foreign_var = False
+                    break
+                if (v[0] == "v" and v[1] >= len(tr["atoms"])) or (v[0] == "m" and any(i >= len(tr["atoms"]) for i in v[1])):
                     want_err = "ValueError"
+                    foreign_var = True
         if want_err is not None:
+            if foreign_var and rec.get("err") == "AssertionError" and name_on_both:
+                # the ValueError message of dofs_of formats the EquationSystem, whose __str__ asserts that a variable
+                # name lives on one kind of grid only
+                deferred = deferred or {"what": f"op {j} ({form}): a Variable unknown to the system raises AssertionError (from EquationSystem.__str__ "
+                                                "inside the error message of dofs_of) instead of ValueError when a variable name exists on "
+                                                "subdomains and on interfaces", "key": "unknown-variable-AssertionError-from-str"}
+                continue
             if rec.get("err") != want_err:
                 return {"what": f"op {j} ({form}): expected {want_err}, got {rec.get('err', 'a result')}", "key": f"error-kind:{form}:{want_err}"}
             continue
@@ -556,7 +576,7 @@ def oracle(case):
             q += n
         if rec["idx"] != exp:
             return {"what": f"op {j} ({form}): assembled_equation_indices {rec['idx']} but the row blocks are {exp}", "key": f"indices-wrong:{form}"}
-    return None
+    return deferred
 
 
 # ----------------------------------------------------------------------------- generator
@@ -614,15 +634,15 @@ def _atoms(vars_):
     out = []
     for v in vars_:
         for g in v["grids"]:
-            out.append({"i": len(out), "name": v["name"], "grid": g})
+            out.append({"i": len(out), "name": v["name"], "grid": g, "on": v["on"]})
     return out
 
 
 def _gen_operand(rng, atoms):
     if rng.random() < 0.4:
         return ["var", rng.choice(atoms)["i"]]
-    name = rng.choice(atoms)["name"]
-    same = [a["i"] for a in atoms if a["name"] == name]
+    a = rng.choice(atoms)
+    same = [b["i"] for b in atoms if b["name"] == a["name"] and b["on"] == a["on"]]  # an md-variable lives on one kind of grid
     return ["md", rng.sample(same, rng.randint(1, len(same)))]
 
 
@@ -749,7 +769,7 @@ def _gen_varlist(rng, atoms, bad):
         elif t < 0.7:
             items.append(["v", a["i"]])
         else:
-            same = [b["i"] for b in atoms if b["name"] == a["name"]]
+            same = [b["i"] for b in atoms if b["name"] == a["name"] and b["on"] == a["on"]]
             items.append(["m", rng.sample(same, rng.randint(1, len(same)))])
     if rng.random() < 0.85:
         # no variable twice (the subset statement proper)
